@@ -975,6 +975,12 @@ func (pf *parserFacts) componentLeaves(s ssa.Value, field *types.Var, index int6
 		return nil, false
 	}
 	switch x := s.(type) {
+	case *ssa.Const:
+		// the zero value of an aggregate (`return voice{}, false`): every component is zero
+		if x.Value == nil {
+			return []leafVal{{v: x}}, true
+		}
+		return nil, false
 	case *ssa.ChangeType:
 		return pf.componentLeaves(x.X, field, index, depth+1)
 	case *ssa.Phi:
@@ -1022,6 +1028,26 @@ func (pf *parserFacts) componentLeaves(s ssa.Value, field *types.Var, index int6
 		}
 		return out, len(out) > 0
 	case *ssa.Extract, *ssa.Lookup, *ssa.Index:
+		// one of several results of a helper (`v, ok := d.voiceFor(..)`): that result at every return
+		if ex, isEx := s.(*ssa.Extract); isEx {
+			if call, isCall := ex.Tuple.(*ssa.Call); isCall {
+				callee := call.Call.StaticCallee()
+				if callee == nil || !pf.p.OwnedFunc(callee) || callee.Blocks == nil {
+					return nil, false
+				}
+				var out []leafVal
+				for _, b := range callee.Blocks {
+					if r, isRet := b.Instrs[len(b.Instrs)-1].(*ssa.Return); isRet && b != callee.Recover && ex.Index < len(r.Results) {
+						l, ok := pf.componentLeaves(r.Results[ex.Index], field, index, depth+1)
+						if !ok {
+							return nil, false
+						}
+						out = append(out, l...)
+					}
+				}
+				return out, len(out) > 0
+			}
+		}
 		// an entry of a container with an element invariant (tracker[key], its comma-ok form, the value of a range)
 		if field == nil && index >= 0 {
 			for f := range pf.elemInv {
